@@ -119,17 +119,13 @@ def pair_ad(ctx, dev, meth: str, track: str, emit_kind: str, rule: str = "C01.pa
             continue
         head = loops[-1]
         body = fv.cfg.loop_body[head]
-        tests = [d for d in fv.cfg.dominators()[cs.node] if d in body and fv.cfg.nodes[d].kind == "test"]
+        tests = fv.controlling(cs.node, within=body, skip_raising=True)
         filt_ok = True
         detail = ""
-        for d in tests:
+        for d, pol in tests:
             tn = fv.cfg.nodes[d]
-            pol = None
-            for atom, fpol, branch in fv.facts_at(cs.node):
-                if branch == d and atom is tn.ast:
-                    pol = fpol
             r = fv.res.resolve(tn.ast, d)
-            cm = to_cmp(r, bool(pol)) if pol is not None else None
+            cm = to_cmp(r, pol)
             if cm is None or cm != Cmp(Poly.symbol(vol), ">"):
                 filt_ok = False
                 detail = f"`{stmt_key(tn.ast)}`"
